@@ -22,6 +22,7 @@ ASSUMPTIONS = ['no particular shuffling algorithm is modelled (the statement '
 FLOORS = {'order_comparisons': 600, 'nontrivial_layers': 150,
           'reported_seed_reruns': 20, 'other_python_runs': 20,
           'par_runs': 30, 'layer_subset_runs': 30, 'resume_runs': 10,
+          'list_par_runs': 30, 'list_subset_runs': 10,
           'shuffle_contract_evals': 300}
 BATCH_TIMEOUT = 400
 
@@ -172,6 +173,27 @@ def run_case(case):
         compare(common.run_world(spec, None, sopts,
                                  extra_argv=['--list-tests'], root=root),
                 'list')
+        # the listing under the other option vectors: -j N (the parent of
+        # a parallel run lists without spawning) and a --layer subset
+        if len(disc) >= 1 and rng.random() < 0.5:
+            N = rng.randint(2, len(disc) + 1)
+            compare(common.run_world(spec, None, dict(sopts, processes=N),
+                                     extra_argv=['--list-tests'], root=root),
+                    'list')
+            C('list_par_runs')
+        if len(disc) >= 2 and rng.random() < 0.3:
+            sub = rng.sample(sorted(disc), rng.randint(1, len(disc) - 1))
+            pats = ['UnitTests$' if s == 'UNIT' else
+                    '%s\\.%s$' % (spec['layers_module'], s) for s in sub]
+            wl = common.run_world(spec, None, dict(sopts, layer=pats),
+                                  extra_argv=['--list-tests'], root=root)
+            listed = {model.short(ln) for ln, _tl in
+                      runcase.parse_listing(wl.out)}
+            if listed - set(sub):
+                V('unselected-layer-listed', 'shuffle-layer-filter',
+                  layers=sorted(listed - set(sub)))
+            compare(wl, 'list', only=set(sub) & set(ref))
+            C('list_subset_runs')
         # -j N
         if len(disc) >= 1 and rng.random() < 0.45:
             N = rng.randint(2, len(disc) + 1)
